@@ -179,7 +179,13 @@ def check_noise_levels(t, seed_tag):
                     ("per-axis acc [0.3,0,0.1]", {"acc_noise": np.array([0.3, 0.0, 0.1])}),
                     ("per-axis mag [0,50,120]", {"mag_noise": np.array([0.0, 50.0, 120.0])}),
                     ("scalar levels at 400 Hz", {"gyr_noise": 0.8, "acc_noise": 0.2, "mag_noise": 40.0, "freq": 400.0}),
-                    ("scalar levels at 25 Hz, degrees", {"gyr_noise": 0.5, "acc_noise": 0.1, "mag_noise": 90.0, "freq": 25.0, "in_degrees": True})):
+                    ("scalar levels at 25 Hz, degrees", {"gyr_noise": 0.5, "acc_noise": 0.1, "mag_noise": 90.0, "freq": 25.0, "in_degrees": True}),
+                    # every level left to its default, with the caller's own reference vectors (unit gravity, a unit field): whatever the
+                    # defaults are, the attributes report what was applied
+                    ("default levels, unit references", {"reference_gravitational_vector": np.array([0.0, 0.0, 1.0]), "reference_magnetic_vector": np.array([0.6, 0.0, 0.8])}),
+                    ("default levels, default references", {}),
+                    # a sampling rate below 1 Hz (slow logging): the published rates and the gyroscopes are per second all the same
+                    ("scalar levels at 0.5 Hz", {"gyr_noise": 0.2, "acc_noise": 0.2, "mag_noise": 40.0, "freq": 0.5})):
         t.calls += 1
         t.keys.add(("noise-levels", tag, seed_tag))
         o = core.outcome(lambda: Sensors(num_samples=n, **kw))
@@ -208,7 +214,8 @@ def check_random_options(t, n, seed_tag):
     """random trajectory route with its options (degrees, pinned yaw, span, rate): all outputs describe ONE trajectory, and the
     bias-corrected gyroscopes integrate from the first attitude back to it"""
     for tag, kw in (("plain", {}), ("in_degrees", {"in_degrees": True}), ("yaw=0", {"yaw": 0.0}), ("yaw=30,in_degrees", {"yaw": 30.0, "in_degrees": True}),
-                    ("yaw=-120,50Hz", {"yaw": -120.0, "freq": 50.0}), ("span", {"span": (-0.5, 0.5)}), ("normalized_mag,yaw=75", {"normalized_mag": True, "yaw": 75.0})):
+                    ("yaw=-120,50Hz", {"yaw": -120.0, "freq": 50.0}), ("span", {"span": (-0.5, 0.5)}), ("normalized_mag,yaw=75", {"normalized_mag": True, "yaw": 75.0}),
+                    ("0.5Hz", {"freq": 0.5}), ("0.8Hz,in_degrees", {"freq": 0.8, "in_degrees": True})):
         t.calls += 1
         t.keys.add(("random-options", n, tag, seed_tag))
         o = core.outcome(lambda: Sensors(num_samples=n, gyr_noise=0.0, acc_noise=0.0, mag_noise=0.0, **kw))
